@@ -116,6 +116,7 @@ def mon_outbound(tr):
     first_seen = {1: [], 2: []}
     written_complete = {}      # instance -> seen completely on the wire in this generation
     gen_adopted = False
+    last_store = None
     for i, (op, lines) in enumerate(tr):
         f = op.split()
         if f and f[0] == "feed":
@@ -124,9 +125,42 @@ def mon_outbound(tr):
                     fed += unhex(a)
         if f and f[0] == "dial" and len(f) > 2 and f[1] == "ok":
             fed += unhex(f[2])
+        if f and f[0] == "damage" and f[1] in ("rm", "stray"):
+            stored.pop(int(f[2], 16), None)
+        for l in lines:
+            if l.startswith("store"):
+                last_store = l
         if f and f[0] == "adopt":
             gen_adopted = True
             written_complete = {}
+            if last_store is not None:
+                # the new generation starts from what the store holds
+                stored, instance = {}, {}
+                for k, pk, seq in sorted(parse_store_line(last_store), key=lambda r: r[2]):
+                    if outbound_key(k) and pk:
+                        t = pk[0] >> 4
+                        if t in (3, 6):
+                            inst_n += 1
+                            instance[k] = inst_n
+                            stored[k] = "publish" if t == 3 else "pubrel"
+                first_seen = {1: [], 2: []}
+            # records AdoptSession reports as dropped no longer count as pending
+            for l in lines:
+                if l.startswith("adopt ok ") and l != "adopt ok -":
+                    for wtxt in l.split()[2].split(";"):
+                        kind, _, rng = wtxt.partition(":")
+                        if kind in ("gap", "relgap"):
+                            ab, _, _c = rng.partition(">")
+                            a, b = [int(x, 16) for x in ab.split("-")]
+                            k, guard = a, 0
+                            while guard < 20000:
+                                stored.pop(k, None)
+                                if k == b:
+                                    break
+                                k = (k & 0xc000) | ((k + 1) & 0x3fff)
+                                guard += 1
+                        elif kind == "corrupt-kept":
+                            stored.pop(int(rng, 16), None)
         saved_here = None
         for l in lines:
             p = l.split()
@@ -375,6 +409,94 @@ def mon_inbound(tr):
 
 
 # --------------------------------------------------------------------------
+# drain epilogue: grant one fault-free connection and a conforming broker
+
+def parse_store_line(line):
+    """'store k:pkt:seq ...' -> [(key, packet bytes or None, seq)]"""
+    out = []
+    for item in line.split()[1:]:
+        k, pk, seq = item.split(":")
+        out.append((int(k, 16), None if pk == "corrupt" else unhex(pk), int(seq)))
+    return out
+
+
+def add_drain(ctx, scripts):
+    """Appends to every script the epilogue that lets a conforming broker
+    acknowledge everything pending; the model tells what is pending."""
+    probe = [sc + ["mstate"] for sc in scripts]
+    outs = C.run_cases(ctx, "session", probe, which=("driver",))[0]
+    heads = []
+    for sc, mo in zip(scripts, outs):
+        st = [l for l in mo if l.startswith("mstate ")]
+        last_adopt = max([i for i, o in enumerate(sc) if o.startswith("adopt")] + [-1])
+        if not st or sess.unsupported(mo) or any(o.startswith("damage") for o in sc[last_adopt + 1:]):
+            heads.append(None)     # damage under a running client is outside the drain claim
+            continue
+        kv = dict(x.split("=") for x in st[-1].split()[1:])
+        if kv["noClient"] == "true" or kv["closed"] == "true" or kv["link"] == "closed" or kv["waiters"] != "0":
+            heads.append(None)
+            continue
+        ep = ["brk"]
+        if kv["parked"] != "true" and kv["readConn"] == "true":
+            ep.append("rs")          # the idle reader notices the broken connection
+        heads.append(ep)
+    probe2 = [sc + (h or []) + ["mstate", "counters"] for sc, h in zip(scripts, heads)]
+    outs2 = C.run_cases(ctx, "session", probe2, which=("driver",))[0]
+    res = []
+    for sc, h, mo in zip(scripts, heads, outs2):
+        ct = [l for l in mo if l.startswith("ctr ")]
+        st = [l for l in mo if l.startswith("mstate ")]
+        if h is None or not ct or not st or sess.unsupported(mo):
+            res.append((sc, False))
+            continue
+        kv = dict(x.split("=") for x in st[-1].split()[1:])
+        if kv["link"] == "live" or kv["closed"] == "true" or kv["noClient"] == "true":
+            res.append((sc, False))
+            continue
+        cv = {k: int(x) for k, x in (y.split("=") for y in ct[-1].split()[1:])}
+        k1 = lambda n: 0x8000 | (n & 0x3fff)
+        k2 = lambda n: 0xc000 | (n & 0x3fff)
+        acks1 = [mq.ack("puback", k1(n)) for n in range(cv["acked"], cv["a1"])]
+        rel = [k2(n) for n in range(cv["completed"], cv["received"])]
+        pub = [k2(n) for n in range(cv["received"], cv["a2"])]
+        if len(acks1) + len(rel) + len(pub) > 600:
+            res.append((sc, False))
+            continue
+        acks2 = [mq.ack("pubcomp", k) for k in rel] + [mq.ack("pubrec", k) for k in pub] + [mq.ack("pubcomp", k) for k in pub]
+        ep = h + ["dial ok 20020000",
+                  "feed " + " ".join(a.hex() for a in (acks1 + acks2)) + " block" if (acks1 or acks2) else "feed block",
+                  "rs", "counters", "store"]
+        res.append((sc + ep, True))
+    return res
+
+
+def mon_drained(tr):
+    """C01 liveness: after the epilogue nothing is pending and every exchange of the last generation is closed."""
+    out = []
+    last_ctr = None
+    open_ex = set()
+    for op, lines in tr:
+        f = op.split()
+        if f and f[0] == "adopt":
+            open_ex = set()
+        for l in lines:
+            if l.startswith("ctr "):
+                last_ctr = l
+            elif l.startswith("pub ok ex="):
+                open_ex.add(int(l.split("=")[1]))
+            elif l.startswith("exchclose "):
+                open_ex.discard(int(l.split()[1]))
+    if last_ctr is not None:
+        cv = {k: int(x) for k, x in (y.split("=") for y in last_ctr.split()[1:])}
+        if cv["a1"] - cv["acked"] or cv["a2"] - cv["completed"] or cv["q1"] or cv["q2"]:
+            out.append(("drain:still-pending", "after a fault-free connection with a conforming broker %d + %d transfers are still pending" %
+                        (cv["a1"] - cv["acked"], cv["a2"] - cv["completed"])))
+        elif open_ex:
+            out.append(("drain:exchange-open", "exchange(s) %s never closed although every transfer was acknowledged" % sorted(open_ex)[:6]))
+    return out
+
+
+# --------------------------------------------------------------------------
 # engine
 
 def corpus_scripts(kind="session"):
@@ -412,7 +534,8 @@ def project(lines, keep):
     return [l for l in lines if keep(l)]
 
 
-def run_property(ctx, module, profile, n_quick, n_thorough, monitors, keep, length=(8, 30), extra=None, sig_prefix=None):
+def run_property(ctx, module, profile, n_quick, n_thorough, monitors, keep, length=(8, 30), extra=None, sig_prefix=None,
+                 drain=False, drain_monitors=None):
     """Returns the Verdict-filled result. `monitors`: list of callables(trace, script)->[(sig, what)].
     `keep`: projection predicate on output lines for the differential comparison."""
     prop = ctx.prop
@@ -440,6 +563,14 @@ def run_property(ctx, module, profile, n_quick, n_thorough, monitors, keep, leng
     n = n_quick if ctx.quick() else n_thorough
     for _ in range(n):
         scripts.append(g.script())
+    drained = {}
+    bases = {}
+    if drain:
+        withep = add_drain(ctx, scripts)
+        bases = {id(full): base for base, (full, ok) in zip(scripts, withep)}
+        scripts = [sc for sc, _ in withep]
+        drained = {id(sc): ok for sc, ok in withep}
+        stats["drain_epilogues"] = sum(1 for _, ok in withep if ok)
     res = sess.run_session(ctx, scripts)
     samples = []
     distinct = set()
@@ -453,6 +584,9 @@ def run_property(ctx, module, profile, n_quick, n_thorough, monitors, keep, leng
         hits = []
         for mon in monitors:
             hits.extend(mon(tr, sc))
+        if drained.get(id(sc)) and not sess.unsupported(model):
+            for mon in (drain_monitors or []):
+                hits.extend(mon(tr, sc))
         nontrivial = sum(1 for l in impl if l.startswith("ev w ") or l.startswith("ev save")) >= 2
         if nontrivial:
             distinct.add(hash(tuple(sc)))
@@ -460,11 +594,20 @@ def run_property(ctx, module, profile, n_quick, n_thorough, monitors, keep, leng
             stats["monitor_hits"] += 1
             sig, what = hits[0]
             # shrink while the same monitor signature fires
+            is_drain = sig.startswith("drain:")
             def fails(cand):
+                if is_drain:
+                    full, ok = add_drain(ctx, [cand])[0]
+                    if not ok:
+                        return False
+                    cand = full
                 i2, _ = sess.run_session(ctx, [cand], shards=1)[0]
                 t2 = parse_trace(i2, cand)
-                return any(s == sig for mon in monitors for s, _ in mon(t2, cand))
-            small = shrink(ctx, sc, fails) if len(v.violations) < 3 else sc
+                return any(s == sig for mon in (monitors + (drain_monitors or [])) for s, _ in mon(t2, cand))
+            start = bases.get(id(sc), sc) if is_drain else sc
+            small = shrink(ctx, start, fails) if len(v.violations) < 3 else start
+            if is_drain:
+                small = add_drain(ctx, [small])[0][0]
             i2, m2 = sess.run_session(ctx, [small], shards=1)[0]
             v.violation("%s:%s" % (prop, sig), what, {"port": "session", "script": small, "impl": i2[-40:], "model": m2[-40:]})
             continue
